@@ -106,8 +106,15 @@ impl InnerListeners {
             return;
         }
 
+        // The first character may be encoded on several bytes.
+        let first_char_len = key_change_event
+            .key
+            .chars()
+            .next()
+            .map(char::len_utf8)
+            .unwrap_or(0);
         let range = (
-            Bound::Included(&key_change_event.key[0..1]),
+            Bound::Included(&key_change_event.key[..first_char_len]),
             Bound::Included(key_change_event.key),
         );
         for (prefix_key, listeners) in self.listeners.range::<str, _>(range) {
